@@ -7,12 +7,14 @@ for d in sorted(glob.glob('/verif/seeded/*')):
     try: m=json.load(open(d+'/meta.json'))
     except Exception: m={}
     v=open(d+'/verified.txt').read() if os.path.exists(d+'/verified.txt') else ''
-    det=re.findall(r'check (C\d+): (DETECTED|MISSED)',v)
+    hist={}
+    for a,b in re.findall(r'check (C\d+): (DETECTED|MISSED)',v): hist.setdefault(a,[]).append(b)
+    det=[(a,h[-1]+('*' if h[-1]=='DETECTED' and 'MISSED' in h else '')) for a,h in hist.items()]
     demo=('fails with / passes without' if 'demo without patch: exit 0' in v and re.search(r'demo with patch: exit [1-9]',v) else 'see verified.txt')
     suite='passes' if 'pinned suite with patch: passes' in v else '?'
     needs=(m.get('needs') or '').replace('\n',' ').replace('|','/')
     if len(needs)>220: needs=needs[:217]+'...'
-    rows.append((name,m.get('property',name.split('-')[0]),needs,demo,suite,', '.join('%s %s'%(a,'**caught**' if b=='DETECTED' else 'missed') for a,b in det)))
+    rows.append((name,m.get('property',name.split('-')[0]),needs,demo,suite,', '.join('%s %s'%(a,('**caught**' if b=='DETECTED' else '**caught** (after strengthening)' if b=='DETECTED*' else 'missed')) for a,b in det)))
 print('| seeded change | property | needs, to manifest | demo | pinned suite | checks run against it (quick tier) |')
 print('|---|---|---|---|---|---|')
 for r in rows: print('| '+' | '.join(r)+' |')
